@@ -93,6 +93,7 @@ def gen_case(rng, tier, i):
                 # a curved surface made flat for a while (radius = inf is how a flat surface is written): only the radius
                 # changes - conic, coefficients, tilts stay and are there again when a finite radius comes back
                 ops.append(['set_radius', float(rng.choice([math.inf, -math.inf])), k])
+                plane[k - 1] = True        # (no conic edits / pickups are generated on it while it is flat)
             else:
                 ops.append(['set_radius', sval(rng, 1e-1, 1e4), k])
                 plane[k - 1] = False
